@@ -5,7 +5,8 @@
    system the agreement theorem is about.  A rejection means the real run left the system model:
    a timeout for a round the node had not reached ([input_ok]), a valid vote of an honest validator
    that the validator's node did not emit before ([admissible]), or an input the node model cannot
-   handle.  At the end the commits of the model run are compared with the commits the real nodes
+   handle; a crash with an intact log followed by a restart is the system's restart step (refusal
+   code 6: the model has no log for the node because a majority claim intervened).  At the end the commits of the model run are compared with the commits the real nodes
    made, and all of them must be for one block. *)
 From Coq Require Import List NArith ZArith Bool Arith.
 From AnnVerif Require Import Base.Res Base.Bytes Base.Sx Model.VoteSet Model.ValSet Model.Node Corr.Oracle Corr.VoteSetCorr
@@ -23,6 +24,7 @@ Definition dEvent (VS : list validator) (s : sx) : option sevent :=
   match s with
   | SL [SB a; SL [SZ 4; SZ r; t; SB peer; b]] =>
     i <-? idx_of a VS 0 ;; t' <-? dN t ;; b' <-? dBid b ;; Some (EMaj i r t' peer b')
+  | SL [SB a; SL [SZ 6]] => i <-? idx_of a VS 0 ;; Some (ERestart i)
   | SL [SB a; inp] => i <-? idx_of a VS 0 ;; inp' <-? dInput inp ;; Some (EIn i inp')
   | _ => None
   end.
@@ -43,6 +45,7 @@ Definition one_block (l : list (nat * bytes)) : bool :=
 Definition refuse_code (VS : list validator) (byz : nat -> bool) (S : sys) (e : sevent) : N :=
   match e with
   | EMaj _ _ _ _ _ => 2%N
+  | ERestart _ => 6%N
   | EIn i inp =>
     if negb (negb (byz i) && (height (st S i) =? 1)) then 2%N
     else if negb (input_ok_b inp (st S i)) then 3%N
@@ -83,7 +86,7 @@ Definition check_system (c : sx) : sx :=
           else if negb ((pow_of VS (fun _ => true) <? 4611686018427387904) && forallb (fun v => 0 <=? snd v) VS
                         && (3 * pow_of VS byz <? pow_of VS (fun _ => true))) then sx_of_codes [40%N]
           else
-            match run_events VS (mkCfg skip') byz (mkSys st0 (fun _ => []) (fun _ => []) [] []) events 0 with
+            match run_events VS (mkCfg skip') byz (mkSys st0 (fun _ => []) (fun _ => []) [] [] (fun i => (vs, None, me i)) (fun _ => Some [])) events 0 with
             | inr l => sx_of_codes l
             | inl Sf =>
               if negb (sub_pairs commits' (cms Sf)) then sx_of_codes [20%N]
